@@ -272,6 +272,11 @@ def run(ch, config, res):
                     srv.fault_weights = [7, 1, 0, 0, 0, 0, 0, 0]
                     faults_before = world.net.stats.probes.get("sendall_timeout", 0)
                     used.extend(a for a in args if isinstance(a, str) and len(a) < 200)
+                    if getattr(client, "sock", None) is None:
+                        # the client has given up its connection (some do after a failed step): what it does when asked to
+                        # talk without one is not this property's business
+                        res.count("ended:client-dropped-its-connection")
+                        break
                     o = world.call(client, meth, *args)
                 if world.net.stats.probes.get("sendall_timeout", 0) > faults_before:
                     # injected fault: a sendall of this call timed out before writing anything; the call's own outcome
